@@ -1,6 +1,6 @@
 (* Extract_term.v -- extraction of the terminal emulator (TermEmu.v) and of the executable draw
    model (DrawDefs.v) to OCaml (ExtrOcamlBasic only). *)
 From Coq Require Import List NArith ZArith Extraction ExtrOcamlBasic.
-From NV Require Import Bytes TermEmu.
+From NV Require Import Bytes TermEmu DrawDefs.
 Definition all_types : nat * N * Z := (0%nat, 0%N, 0%Z).
-Extraction "term_model.ml" all_types term_new feed run interp cp_wid.
+Extraction "term_model.ml" all_types term_new feed run interp cp_wid wfix fix_left term_col drawupdate drawfix win.
